@@ -246,6 +246,7 @@ CONTRACTS.update({
         'params': {'self': 'obj:VariablesManager', 'G': 'obj:BipV', 'label': 'opaquestr'},
         'calls_model': {'BipartiteEdgesVariables': 'BipEdgeVars'},
         'requires': ['self._formula._numvar >= 0'],
+        'modifies': ['self._groups', 'self._formula._numvar'],
         'raises': {'ValueError': None},          # only the label check may refuse
         'returns': 'obj:BipEdgeVars',
         'ensures': _alloc(BE_INV) + ['result.G == G', 'result.ids_hi - result.ids_lo == degsum(G.gid, G.lorder)'],
@@ -257,6 +258,7 @@ CONTRACTS.update({
         'params': {'self': 'obj:VariablesManager', 'B': 'obj:BipV', 'label': 'opaquestr'},
         'calls_model': {'UnaryMappingVariables': 'BipEdgeVars'},
         'requires': ['self._formula._numvar >= 0'],
+        'modifies': ['self._groups', 'self._formula._numvar'],
         'raises': {'ValueError': None},
         'returns': 'obj:BipEdgeVars',
         'ensures': _alloc(BE_INV) + ['result.G == B', 'result.ids_hi - result.ids_lo == degsum(B.gid, B.lorder)'],
@@ -267,6 +269,7 @@ CONTRACTS.update({
         'params': {'self': 'obj:VariablesManager', 'n': 'int', 'm': 'int', 'label': 'opaquestr'},
         'calls_model': {'UnaryMappingVariables': 'BipEdgeVars', 'CompleteBipartiteGraph': 'BipV'},
         'requires': ['self._formula._numvar >= 0'],
+        'modifies': ['self._groups', 'self._formula._numvar'],
         # refused for negative sizes (documented); otherwise only the label check may refuse
         'raises': {'ValueError': None},
         'returns': 'obj:BipEdgeVars',
